@@ -12,7 +12,9 @@ import itertools
 import numpy as np
 from hypothesis import strategies as st
 
-from ..core import Violation, require
+from fractions import Fraction
+
+from ..core import HarnessError, Violation, require
 from ..gen import exactgeom as eg
 from ..gen.digits import Digits, big_int
 
@@ -21,12 +23,19 @@ RULE = (
     "Two non-degenerate segments with integer coordinates (|x| <= ~40, box radius R in 2..4 plus constructed "
     "points) in 2-d or 3-d, built by construction in the classes random / parallel / collinear (disjoint, "
     "touching, overlapping, contained, identical) / T- and endpoint-touching / crossing in a lattice point / "
-    "crossing in a non-lattice rational point / near miss (lines meet, segments do not) / (3-d) skew. Oracle = "
+    "crossing in a non-lattice rational point / near miss (lines meet, segments do not) / (3-d) skew / long-overlap "
+    "(a segment of 1e3..1e5 lattice steps and a short collinear one overlapping it in 0..30 steps, i.e. overlap/length "
+    "1e-5..3e-2 or exactly 0, at either end, inside, or disjoint). One case in three is mapped by an exact similarity "
+    "x -> (num/den)*x + off (2-d: factors 1/8192, 1/128, 1, 10, 1e3, 1e5, integer offsets up to 6.7e6; 3-d: factors "
+    "1..1e4 and offsets with |coordinate| <= 1e6, because segments_3d uses an absolute 1e-8); every transformed "
+    "coordinate is exactly representable, so all degeneracies stay exact. Oracle = "
     "exact intersection of the closed segments with fractions.Fraction: none | point | segment. segments_2d / "
     "segments_3d are evaluated for all 8 presentations (swap arguments, reverse either segment) and must give "
     "None / one column equal to the point / two columns equal as a set to the end points of the common segment "
-    "(1e-9 absolute + relative). Thorough tier: exhaustive enumeration of all unordered pairs of lattice segments "
-    "in [-2,2]^2, [-1,1]^3, [-3,3]^2 and [-1,2]^3 (2.8 million pairs). Non-trivial = the supporting lines are coplanar "
+    "(lattice class: 1e-9 absolute + relative; transformed / long class: 64 eps * max|coordinate| + 1e-12 * extent). "
+    "Thorough tier: exhaustive enumeration of all unordered pairs of lattice segments in [-2,2]^2, [-1,1]^3, [-3,3]^2 "
+    "and [-1,2]^3, of the first two boxes under 3 resp. 2 of the similarity transforms, and of all long-overlap "
+    "configurations along the primitive directions of [-1,1]^d (3.29 million pairs). Non-trivial = the supporting lines are coplanar "
     "(every 2-d pair; in 3-d: parallel, or meeting lines); distinct = hash of spec."
 )
 BUDGET = {"quick": {"cases": 40000, "seconds": 35}, "thorough": {"cases": 3000000, "seconds": 1100}}
@@ -35,14 +44,19 @@ TECHNIQUE = ("property-based testing (Hypothesis) with constructed degeneracy cl
 LEVEL_TEXT = ("Exploration (quick): tens of thousands of integer segment pairs per run with every degeneracy class "
               "forced by construction, each checked in all 8 presentations against an exact Fraction oracle. "
               "Thorough: exhaustive over all pairs of lattice segments in [-2,2]^2, [-1,1]^3, [-3,3]^2 and [-1,2]^3.")
-LEVEL_NOTE = ("Integer coordinates only, so every degeneracy is exact or at least 1e-4 away from the functions' 1e-8 "
-              "tolerances; behaviour inside the tolerance band is not examined. Zero-length segments are not "
+LEVEL_NOTE = ("Integer coordinates, or exact similarity images of them (exactly representable floats), so every degeneracy "
+              "is exact or at least 1e-5 (relative) away from the functions' 1e-8 tolerances - in particular a collinear "
+              "overlap is either exactly a point or at least 1000 x tol * length long; behaviour inside the tolerance "
+              "band is not examined. Zero-length segments are not "
               "generated. In 3-d a two-column result with identical columns is accepted for a one-point intersection "
               "of collinear segments (callers treat it as measure zero).")
 DESIGN_REF = "DESIGN.md section 4, C28"
 ASSUMPTIONS = [
     "integer coordinates passed as float arrays (as the callers do)",
     "both segments have distinct end points",
+    "what counts as a single point vs an overlapping stretch is only asserted for overlaps that are exactly zero or at "
+    "least 1e-5 of the longer segment (1000 x the default tol)",
+    "segments_3d (absolute tolerance 1e-8) is only given coordinates up to 1e6 and no down-scaled configurations",
     "a (3,2) result with two equal columns counts as the single point (3-d collinear touching)",
 ]
 # One table serves both tiers (the runner has no per-tier REQUIRED): each threshold is about a third of the
@@ -63,6 +77,11 @@ REQUIRED = {
     "near-miss": 0.02,                # 16 % / 20 %
     "rational-point": 0.015,          # 7.5 % / 5.7 %
     "3d-degenerate-projection": 0.03, # 12 % / 30 %
+    "lattice": 0.3,                   # 60 % / 77 %
+    "transformed": 0.02,              # 31 % / 7 %
+    "scaled-up": 0.01,                # 17 % / 5 %
+    "far-offset": 0.01,               # 23 % / 5 %
+    "long-segment-short-overlap": 0.01,  # 6 % / 9 %
 }
 ENUMERATE_TIERS = ("thorough",)
 _enum = builtins.enumerate  # the contract's `enumerate` below shadows the builtin in this module
@@ -102,7 +121,7 @@ KNOWN = {"C28-segments3d-parallel-projection": _proj_parallel}
 
 # ----------------------------------------------------------------------------- strategies
 GENS = ["random", "random", "parallel", "collinear", "touch", "cross", "cross", "cross-rational", "cross-rational",
-        "near-miss", "shared-endpoint"]
+        "near-miss", "shared-endpoint", "long-overlap"]
 
 
 def _add(p, v, k=1):
@@ -193,6 +212,27 @@ def build(gen, dim, R, n):
             d = _add(c, g, D.int(1, 2))
         else:
             d = _add(c, g, -D.int(1, 2))  # pointing away from x: lines meet, segments don't
+    elif gen == "long-overlap":
+        # a long segment [0, L] u and a short collinear one that overlaps it in a stretch of k << L lattice steps
+        # (k / L between 1e-5 and 3e-2, i.e. at least 1000 x the functions' 1e-8), touches it in one point (k = 0),
+        # or misses it: at the far end, at the start, or inside
+        o, u = P(), D.vec(dim, 2, True)
+        L = D.choice([1000, 10000, 100000])
+        k = D.int(0, 30)
+        e = D.int(0, 30)
+        where = D.below(4)
+        if where == 0:
+            t = [0, L, L - k, L + e + (1 if k + e == 0 else 0)]      # overlaps [L-k, L]; k = 0: end-to-end
+        elif where == 1:
+            t = [0, L, -e - (1 if k + e == 0 else 0), k]             # overlaps [0, k]
+        elif where == 2:
+            c0 = D.int(1, 9) * (L // 10)
+            t = [0, L, c0, c0 + max(k, 1)]                           # short segment inside the long one
+        else:
+            t = [0, L, L + 1 + k, L + 2 + k + e]                     # collinear, disjoint by k + 1 steps
+        if D.bool():
+            t[2], t[3] = t[3], t[2]
+        a, b, c, d = (_add(o, u, j) for j in t)
     else:  # shared-endpoint
         a, u, v = P(), D.vec(dim, R, True), D.vec(dim, R, True)
         b = _add(a, u)
@@ -203,8 +243,45 @@ def build(gen, dim, R, n):
     return {"dim": dim, "s1": [a, b], "s2": [c, d], "gen": gen}
 
 
+# Exact similarity transforms x -> (num/den) * x + off of the integer configuration: num/den is an integer or a
+# negative power of two and off an integer vector, so every transformed coordinate is exactly representable and all
+# degeneracies of the lattice configuration (touching, collinear, parallel, concurrent) stay exact.
+OFFVEC = [5123457, 6712345, -1234568]  # * m / 1e7
+TF_2D = [(sc, m) for sc in ((1, 8192), (1, 128), (1, 1), (10, 1), (1000, 1), (100000, 1)) for m in (0, 1000, 100000, 10000000)
+         if not (sc == (1, 1) and m == 0)]
+# segments_3d compares coordinates with an absolute 1e-8: only |coordinate| <= 1e6 (rounding of an intersection
+# point <= 1e-9) and no down-scaling
+TF_3D = [(sc, m) for sc in ((1, 1), (10, 1), (1000, 1), (10000, 1)) for m in (0, 1000, 100000, 500000)
+         if not (sc == (1, 1) and m == 0) and 45 * sc[0] + m <= 1000000]
+
+
+def build_tf(gen, dim, R, n, tf):
+    s = build(gen, dim, R, n)
+    if tf is None or gen == "long-overlap":
+        return s
+    table = TF_2D if dim == 2 else TF_3D
+    (num, den), m = table[tf % len(table)]
+    off = [c * m // 10000000 for c in OFFVEC]
+
+    def T(p):
+        out = []
+        for x, o in zip(p, off):
+            v = Fraction(x * num, den) + o
+            f = float(v)
+            if Fraction(f) != v:
+                raise HarnessError(f"transformed coordinate {v} is not representable")
+            out.append(int(v) if v.denominator == 1 else f)
+        return out
+
+    s["s1"] = [T(p) for p in s["s1"]]
+    s["s2"] = [T(p) for p in s["s2"]]
+    s["tf"] = [num, den, m]
+    return s
+
+
 def strategy(tier):
-    return st.builds(build, st.sampled_from(GENS), st.sampled_from([2, 3]), st.sampled_from([2, 3, 4]), big_int(128))
+    return st.builds(build_tf, st.sampled_from(GENS), st.sampled_from([2, 3]), st.sampled_from([2, 3, 4]), big_int(128),
+                     st.one_of(st.none(), st.none(), st.integers(0, 10 ** 6)))
 
 
 def _lattice_segments(dim, lo, hi):
@@ -212,24 +289,77 @@ def _lattice_segments(dim, lo, hi):
     return [(list(p), list(q)) for i, p in _enum(pts) for q in pts[i + 1:]]
 
 
+def _apply_tf(spec, dim, num, den, m):
+    off = [c * m // 10000000 for c in OFFVEC]
+
+    def T(p):
+        out = []
+        for x, o in zip(p, off):
+            v = Fraction(x * num, den) + o
+            out.append(int(v) if v.denominator == 1 else float(v))
+        return out
+
+    spec["s1"] = [T(q) for q in spec["s1"]]
+    spec["s2"] = [T(q) for q in spec["s2"]]
+    spec["tf"] = [num, den, m]
+    return spec
+
+
 def enumerate(tier, shard, nshards):  # noqa: A001 - name fixed by the contract
     """All unordered pairs {s1, s2} (s1 <= s2 in enumeration order, including s1 == s2) of
     unordered lattice segments; the check itself runs the 8 ordered/oriented presentations.
-    Order: [-2,2]^2 (45 150 pairs), [-1,1]^3 (61 776), [-3,3]^2 (692 076), [-1,2]^3 (2 033 136)."""
+    Order: [-2,2]^2 (45 150 pairs), [-1,1]^3 (61 776); the same two boxes under exact similarity
+    transforms (3 x 45 150 and 2 x 61 776); all long-segment / short-overlap configurations
+    (L in {1e3, 1e4, 1e5}, overlap and excess 0..30 steps, 4 placements, both orders of the
+    short segment, every primitive direction of [-1,1]^d: about 0.8 million); then [-3,3]^2
+    (692 076) and [-1,2]^3 (2 033 136)."""
     n = 0
-    for dim, lo, hi in ((2, -2, 2), (3, -1, 1), (2, -3, 3), (3, -1, 2)):
+
+    def boxes(dim, lo, hi, tf=None):
+        nonlocal n
         segs = _lattice_segments(dim, lo, hi)
         for i, s1 in _enum(segs):
             n += 1
             if n % nshards != shard:
                 continue
             for s2 in segs[i:]:
-                yield {"dim": dim, "s1": [s1[0], s1[1]], "s2": [s2[0], s2[1]], "gen": "enum"}
+                spec = {"dim": dim, "s1": [s1[0], s1[1]], "s2": [s2[0], s2[1]], "gen": "enum"}
+                yield spec if tf is None else _apply_tf(spec, dim, *tf)
+
+    yield from boxes(2, -2, 2)
+    yield from boxes(3, -1, 1)
+    for tf in ((100000, 1, 0), (1, 8192, 10000000), (1000, 1, 100000)):
+        yield from boxes(2, -2, 2, tf)
+    for tf in ((10000, 1, 0), (10, 1, 500000)):
+        yield from boxes(3, -1, 1, tf)
+    for dim in (2, 3):
+        dirs = [list(u) for u in itertools.product((-1, 0, 1), repeat=dim) if any(u) and u > tuple(-x for x in u)]
+        for u in dirs:
+            for L in (1000, 10000, 100000):
+                for k in range(31):
+                    n += 1
+                    if n % nshards != shard:
+                        continue
+                    for e in range(31):
+                        for where in range(4):
+                            if where == 0:
+                                t = [0, L, L - k, L + e + (1 if k + e == 0 else 0)]
+                            elif where == 1:
+                                t = [0, L, -e - (1 if k + e == 0 else 0), k]
+                            elif where == 2:
+                                c0 = (1 + e % 9) * (L // 10)
+                                t = [0, L, c0, c0 + max(k, 1)]
+                            else:
+                                t = [0, L, L + 1 + k, L + 2 + k + e]
+                            a, b, c, d = ([j * x for x in u] for j in t)
+                            yield {"dim": dim, "s1": [a, b], "s2": [c, d], "gen": "long-overlap"}
+    yield from boxes(2, -3, 3)
+    yield from boxes(3, -1, 2)
 
 
 # ----------------------------------------------------------------------------- check
-def _close(col, P, scale):
-    return all(abs(float(x) - float(y)) <= 1e-9 * scale + 1e-9 for x, y in zip(col, P))
+def _close(col, P, tolv):
+    return all(abs(float(x) - float(y)) <= tolv for x, y in zip(col, P))
 
 
 def _compare(res, exact, dim, scale, what):
@@ -271,7 +401,14 @@ def check(s):
         raise Violation("bad-spec", "zero-length segment")  # never generated
     a, b, c, d = eg.pt(A), eg.pt(B), eg.pt(C), eg.pt(D)
     exact = eg.segment_intersection(a, b, c, d)
-    scale = max(1.0, max(abs(x) for p in (A, B, C, D) for x in p))
+    mx = max(abs(x) for p in (A, B, C, D) for x in p)
+    if s.get("tf") is None and s["gen"] != "long-overlap":
+        scale = 1e-9 * max(1.0, mx) + 1e-9          # lattice class, as before
+    else:
+        # transformed / long segments: the returned points are rounded intersection points, accurate to a few ulp of
+        # the largest coordinate plus a relative 1e-12 of the extent of the pair
+        ext = max(max(p[i] for p in (A, B, C, D)) - min(p[i] for p in (A, B, C, D)) for i in range(dim))
+        scale = 64 * 2.220446049250313e-16 * mx + 1e-12 * ext
 
     for order in (0, 1):
         for r1 in (0, 1):
@@ -287,6 +424,21 @@ def check(s):
     # ---- classification
     u, v, w = eg.sub(b, a), eg.sub(d, c), eg.sub(c, a)
     labels = [f"{dim}d", "kind-" + exact[0], "gen-" + s["gen"]]
+    if s.get("tf") is not None:
+        num, den, m = s["tf"]
+        labels.append("transformed")
+        if num > den:
+            labels.append("scaled-up")
+        if den > num:
+            labels.append("scaled-down")
+        if m:
+            labels.append("far-offset")
+    elif s["gen"] != "long-overlap":
+        labels.append("lattice")
+    if s["gen"] == "long-overlap":
+        labels.append("long-segment")
+        if exact[0] == "segment":
+            labels.append("long-segment-short-overlap")
     par = eg.parallel(u, v)
     coplanar = True
     if par:
